@@ -1,4 +1,5 @@
 mod budget;
+mod plock;
 mod sched;
 mod util;
 mod wal;
@@ -14,6 +15,7 @@ fn main() {
     match argv[1].as_str() {
         "wal-replay" => wal::replay(&args),
         "budget-replay" => budget::replay(&args),
+        "plock-replay" => plock::replay(&args),
         "wal-faults" => wal::fault_sweep(&args),
         other => {
             eprintln!("unknown subcommand {}", other);
